@@ -373,7 +373,7 @@ impl Driver for C13 {
         Describe {
             rule: format!(
                 "rectangles: every ordered pair of corner points on a 5x5 grid x every point of the 7x7 grid; polygons: every sequence of 3..={l} distinct vertices on a {g}x{g} grid that is a simple polygon (all orientations, start vertices, collinear vertices){} and each of them again with one consecutive repeated vertex at every position, x every point of the (g+2)^2 grid; Manhattan paths: every sequence of 2..=4 points on a 5x5 grid with axis-parallel non-empty segments x width 0..=4 x every point of the 9x9 grid. A state is one shape (enumeration is duplicate-free by construction); a polygon is non-trivial when some non-boundary grid point has its rightward ray passing through a polygon vertex. Oracle: exact integer geometry (boundary by zero cross product, winding number with half-open rule, cross-checked against an independent crossing-number implementation at start-up).",
-                if tier.is_thorough() { ", plus every 6-vertex simple polygon on the 4x4 grid" } else { "" }
+                if tier.is_thorough() { ", plus every 6-vertex simple polygon on the 5x5 grid" } else { "" }
             ),
             assumptions: vec![
                 "paths: only the two sets the statement fixes are judged (inside a segment rectangle => true; farther than w/2 from every segment => false); end caps and corner squares are don't-care".into(),
@@ -395,10 +395,10 @@ impl Driver for C13 {
             }
         }
         if tier.is_thorough() {
-            for i in 0..16 {
-                for j in 0..16 {
+            for i in 0..25 {
+                for j in 0..25 {
                     if i != j {
-                        v.push(format!("P:4:6:{i}:{j}"));
+                        v.push(format!("P:5:6:{i}:{j}"));
                     }
                 }
             }
